@@ -140,6 +140,21 @@ func init() {
 		if strings.Contains(m, ",") {
 			m = "set"
 		}
+		// a comma is a valid character of a method name (IsValidRIDPart): such a
+		// method equals no entry of any list, whatever the list looks like - the
+		// whole list, a run of its entries, or a list of its own
+		switch rapid.IntRange(0, 5).Draw(t, "commamethod") {
+		case 0:
+			m = call
+		case 1:
+			if n >= 2 {
+				i := rapid.IntRange(0, n-2).Draw(t, "from")
+				j := rapid.IntRange(i+2, n).Draw(t, "to")
+				m = strings.Join(parts[i:j], ",")
+			}
+		case 2:
+			m = rapid.SampledFrom([]string{"set,get", "set,", ",set", ",", "get,set"}).Draw(t, "cm")
+		}
 		a := &rescache.Access{AccessResult: &codec.AccessResult{Get: true, Call: call}}
 		got := a.CanCall(m) == nil
 		want := call == "*"
@@ -164,7 +179,7 @@ func init() {
 				sub = true
 			}
 		}
-		env.Record(call+"|"+m, sub, map[string]int{"granted": b2i(want), "substring_entry": b2i(sub)})
+		env.Record(call+"|"+m, sub, map[string]int{"granted": b2i(want), "substring_entry": b2i(sub), "comma_method": b2i(strings.Contains(m, ","))})
 	})
 }
 
